@@ -98,8 +98,9 @@ def build(shape_key, edges, kg, spelling, pin, shared, mode, L=60):
                 t["deps"] = deps[fid]
             if fid in precs:
                 t["prec"] = precs[fid]
-            if pin == "container" and kids and fid == next(f for f, _p, c in nl if c):
-                t["start"] = "2025-01-07-09:00"
+            if pin in ("container", "container-early") and kids and fid == next(f for f, _p, c in nl if c):
+                # 'early': the typed date lies before what the children can reach, so the container's real start is later
+                t["start"] = "2025-01-07-09:00" if pin == "container" else "2025-01-06-09:00"
             if pin == "leaf" and fid == leaves[0]:
                 t["start"] = "2025-01-07-10:00"
             if pin == "cend" and kids and fid == next(f for f, _p, c in nl if c):
@@ -136,12 +137,12 @@ def universe(tier):
                         continue
                     if not edges and spelling != "rel":
                         continue
-                    for pin in (None, "container", "leaf", "cend"):
-                        if pin in ("container", "cend") and sk == "S1":
+                    for pin in (None, "container", "container-early", "leaf", "cend"):
+                        if pin in ("container", "container-early", "cend") and sk == "S1":
                             continue
-                        for shared in ((True,) if tier == "quick" else (True, False)):
+                        for shared in ((True, False) if (tier != "quick" or kg[0] == "start") else (True,)):
                             for mode in ("asap", "alap", "alap-end"):
-                                if mode != "asap" and (kg[0] == "start" or pin in ("container", "leaf")):
+                                if mode != "asap" and (kg[0] == "start" or pin in ("container", "container-early", "leaf")):
                                     continue
                                 if pin == "cend" and mode == "asap":
                                     continue
@@ -184,7 +185,7 @@ def sample(item):
 
 def trait(item, clause, detail, fid):
     if fid == "D5":
-        return item["pin"] == "container"
+        return item["pin"] in ("container", "container-early")
     if fid == "D6":
         return item["mode"] != "asap" and bool(item["kg"][1])
     return False
